@@ -240,6 +240,46 @@ pub fn check_image(o: &mut Out, im: &Img, sched: &[usize], to_model: bool) {
     }
 }
 
+/// the unfiltering buffer's cursors (hook) after every row call vs Model/UnfiltBuf.v
+fn ubuf_cases(o: &mut Out, rng: &mut Rng, thorough: bool) {
+    use crate::gen::{valid_file, GenOpts};
+    use crate::readerrun::*;
+    use crate::streamrun::Opts;
+    let mut files: Vec<(String, Vec<u8>, ImageSpec)> = vec![];
+    for k in 0..(if thorough { 60 } else { 14 }) {
+        let b = valid_file(rng, &GenOpts { maxw: if k % 3 == 0 { 900 } else { 60 }, maxh: if k % 3 == 0 { 300 } else { 40 }, anc: false, animated: Some(false) });
+        files.push((b.name.clone(), b.bytes.clone(), b.spec.clone()));
+    }
+    let im = far_match_image(rng, 200, 32768, 0);
+    files.push((im.name.clone(), im.file.clone(), im.spec.clone()));
+    for (name, file, spec) in files {
+        let piece = *rng.pick(&[0usize, 1, 7, 100, 4096, 40_000]);
+        o.mark(&format!("ubuf {} piece={}", name, piece));
+        let mut rd = match open_reader(&file, &[piece], Opts::default(), 0, None) { Ok(Ok(r)) => r, _ => continue };
+        let bits = crate::refimpl::samples(spec.color) * spec.depth as usize;
+        let rows: Vec<(u32, u32)> = if spec.interlaced { crate::refimpl::adam7_rows_ref(spec.w, spec.h).iter().map(|(_, l, lw)| (*l, *lw)).collect() } else { (0..spec.h).map(|l| (l, spec.w)).collect() };
+        let mut calls: Vec<String> = vec![];
+        let mut states: Vec<String> = vec![];
+        for (line, lw) in rows.iter().take(6000) {
+            let rl = (*lw as usize * bits + 7) / 8;
+            let before = rd.verif_unfiltering_cursors();
+            match rd.next_interlaced_row() { Ok(Some(_)) => {}, _ => break }
+            let after = rd.verif_unfiltering_cursors();
+            // what the call did, as far as the cursors show it: reset at the first row of an image / pass; an append (with compaction) iff the row was not complete
+            let reset = *line == 0;
+            let (blen, bprev, bcur) = (before.0, if reset { before.2 } else { before.1 }, before.2);
+            let needed = blen - bcur < rl + 1;
+            let k = if needed { after.0 as i64 - (blen - bprev) as i64 } else { 0 };
+            if k < 0 { states.push(format!("NEGATIVE-APPEND {:?} {:?}", before, after)); break; }
+            calls.push(format!("{}:{}:{}", reset as u8, rl, k));
+            states.push(format!("{}:{}:{}", after.0, after.1, after.2));
+        }
+        if calls.is_empty() { continue; }
+        o.case(&format!("ubuf {}", calls.join(",")), &states.join(";"), &format!("ubuf-{}-{}-{}", spec.interlaced, piece, name.len() % 5), calls.len() > 2);
+        o.count("ubuf.files");
+    }
+}
+
 pub fn run(a: &Args) {
     let mut o = Out::new(&a.out);
     let mut rng = Rng::new(a.seed);
@@ -303,6 +343,7 @@ pub fn run(a: &Args) {
             check_image(&mut o, &im, &[rng.range(1, 3000) as usize], false);
         }
     }
+    ubuf_cases(&mut o, &mut rng, a.tier == "thorough");
     o.mark("done");
     o.finish();
 }
